@@ -186,6 +186,11 @@ Fixpoint diag_items (s : state) (t : list item) (i : Z) : option Z :=
   end.
 Definition diag_trace (backward : bool) (t : list item) : option Z := diag_items (init backward) t 0.
 
+(** the harness prints a long trace as a list of segments (Coq's parser is quadratic in the length
+    of one bracketed list) *)
+Definition chk_segs (backward : bool) (segs : list (list item)) : bool := chk_trace backward (concat segs).
+Definition diag_segs (backward : bool) (segs : list (list item)) : option Z := diag_trace backward (concat segs).
+
 (** the same against the pre-repair machine (used to confirm the fixed finding C14-K1 on old trees) *)
 Fixpoint chk_items_pre (s : state) (t : list item) : bool :=
   match t with
